@@ -92,3 +92,32 @@ def several_in_one_statement(nums: list[int], names: list[str], cache: dict[str,
     for i, j in zip(list(nums), list(names)):
         pass
     lam = lambda k=int(0), m=str(""): (k, m)
+
+
+def not_first_on_its_line(found: list[int], a: int, b: int) -> None:
+    # a statement that a block-level check reports, written after another statement on the same physical line
+    total = 0; found.append(a)
+    found.append(b)
+    if total: pass; found.append(1); found.append(2)
+    x = int(0); y = not not x; z = str("")
+
+
+def block_begins_with_a_decorated_function(out: list[int]) -> None:
+    import functools
+
+    @functools.cache
+    def helper() -> int:
+        return int(0)
+
+    out.append(helper())
+    out.append(2)
+
+    class Inner:
+        @staticmethod
+        def m(xs: list[int]) -> None:
+            xs.append(1)
+            xs.append(2)
+
+        names: list[str] = []
+        names.append("a")
+        names.append("b")
